@@ -338,6 +338,11 @@ class Exec:
 
     def to_val(self, st, v):
         """Any value -> term of sort Val (used as argument of uninterpreted functions)."""
+        hook = getattr(self, "val_hook", None)
+        if hook is not None:
+            r = hook(self, st, v)
+            if r is not None:
+                return r
         if isinstance(v, Opq):
             t = v.term
             for k in sorted(v.over, key=str):
